@@ -11,6 +11,7 @@ import (
 	"github.com/nsqio/nsq/internal/lg"
 	"github.com/nsqio/nsq/internal/quantile"
 	"github.com/nsqio/nsq/internal/util"
+	"github.com/nsqio/nsq/internal/verif"
 )
 
 type Topic struct {
@@ -104,11 +105,13 @@ func (t *Topic) GetChannel(channelName string) *Channel {
 	t.Unlock()
 
 	if isNew {
+		verif.Yield("getchannel.beforeHandshake", vt(t))
 		// update messagePump state
 		select {
 		case t.channelUpdateChan <- 1:
 		case <-t.exitChan:
 		}
+		verif.Ev("CCreated", "c", vc(channel), "t", vt(t))
 	}
 
 	return channel
@@ -123,6 +126,7 @@ func (t *Topic) getOrCreateChannel(channelName string) (*Channel, bool) {
 		}
 		channel = NewChannel(t.name, channelName, t.nsqd, deleteCallback)
 		t.channelMap[channelName] = channel
+		verif.Ev("CMapAdd", "c", vc(channel), "t", vt(t), "n", len(t.channelMap))
 		t.nsqd.logf(LOG_INFO, "TOPIC(%s): new channel(%s)", t.name, channel.name)
 		return channel, true
 	}
@@ -149,6 +153,7 @@ func (t *Topic) DeleteExistingChannel(channelName string) error {
 	}
 
 	t.nsqd.logf(LOG_INFO, "TOPIC(%s): deleting channel %s", t.name, channel.name)
+	verif.Ev("CDeleteBegin", "c", vc(channel), "t", vt(t))
 
 	// delete empties the channel before closing
 	// (so that we dont leave any messages around)
@@ -157,10 +162,12 @@ func (t *Topic) DeleteExistingChannel(channelName string) error {
 	// so that any incoming subs will error and not create a new channel
 	// to enforce ordering
 	channel.Delete()
+	verif.Yield("chandelete.afterDelete", vc(channel))
 
 	t.Lock()
 	delete(t.channelMap, channelName)
 	numChannels := len(t.channelMap)
+	verif.Ev("CMapDel", "c", vc(channel), "t", vt(t), "n", numChannels)
 	t.Unlock()
 
 	// update messagePump state
@@ -183,12 +190,14 @@ func (t *Topic) PutMessage(m *Message) error {
 	if atomic.LoadInt32(&t.exitFlag) == 1 {
 		return errors.New("exiting")
 	}
+	verif.Yield("topic.put.afterExitCheck", vt(t))
 	err := t.put(m)
 	if err != nil {
 		return err
 	}
 	atomic.AddUint64(&t.messageCount, 1)
 	atomic.AddUint64(&t.messageBytes, uint64(len(m.Body)))
+	verif.Ev("TPutAck", "t", vt(t), "ids", []string{vid(m.ID)}, "bytes", len(m.Body))
 	return nil
 }
 
@@ -214,6 +223,7 @@ func (t *Topic) PutMessages(msgs []*Message) error {
 
 	atomic.AddUint64(&t.messageBytes, uint64(messageTotalBytes))
 	atomic.AddUint64(&t.messageCount, uint64(len(msgs)))
+	verif.Ev("TPutAck", "t", vt(t), "ids", vids(msgs), "bytes", messageTotalBytes)
 	return nil
 }
 
@@ -221,15 +231,18 @@ func (t *Topic) put(m *Message) error {
 	// If mem-queue-size == 0, avoid memory chan, for more consistent ordering,
 	// but try to use memory chan for deferred messages (they lose deferred timer
 	// in backend queue) or if topic is ephemeral (there is no backend queue).
+	verif.Ev("TPutBegin", "t", vt(t), "id", vid(m.ID), "body", m.Body, "ts", m.Timestamp, "def", int64(m.deferred))
 	if cap(t.memoryMsgChan) > 0 || t.ephemeral || m.deferred != 0 {
 		select {
 		case t.memoryMsgChan <- m:
+			verif.Ev("TPutEnd", "t", vt(t), "id", vid(m.ID), "where", "mem", "ok", true)
 			return nil
 		default:
 			break // write to backend
 		}
 	}
 	err := writeMessageToBackend(m, t.backend)
+	verif.Ev("TPutEnd", "t", vt(t), "id", vid(m.ID), "where", "disk", "ok", err == nil)
 	t.nsqd.SetHealth(err)
 	if err != nil {
 		t.nsqd.logf(LOG_ERROR,
@@ -276,6 +289,7 @@ func (t *Topic) messagePump() {
 		memoryMsgChan = t.memoryMsgChan
 		backendChan = t.backend.ReadChan()
 	}
+	verif.Ev("TPumpChans", "t", vt(t), "chans", vcs(chans), "paused", t.IsPaused(), "why", "start")
 
 	// main message loop
 	for {
@@ -301,6 +315,7 @@ func (t *Topic) messagePump() {
 				memoryMsgChan = t.memoryMsgChan
 				backendChan = t.backend.ReadChan()
 			}
+			verif.Ev("TPumpChans", "t", vt(t), "chans", vcs(chans), "paused", t.IsPaused(), "why", "update")
 			continue
 		case <-t.pauseChan:
 			if len(chans) == 0 || t.IsPaused() {
@@ -310,12 +325,15 @@ func (t *Topic) messagePump() {
 				memoryMsgChan = t.memoryMsgChan
 				backendChan = t.backend.ReadChan()
 			}
+			verif.Ev("TPumpChans", "t", vt(t), "chans", vcs(chans), "paused", t.IsPaused(), "why", "pause")
 			continue
 		case <-t.exitChan:
 			goto exit
 		}
+		verif.Ev("TTake", "t", vt(t), "id", vid(msg.ID), "chans", vcs(chans), "paused", memoryMsgChan == nil, "def", int64(msg.deferred))
 
 		for i, channel := range chans {
+			verif.Yield("tpump.beforeCopy", vc(channel))
 			chanMsg := msg
 			// copy the message because each channel
 			// needs a unique instance but...
@@ -335,8 +353,10 @@ func (t *Topic) messagePump() {
 				t.nsqd.logf(LOG_ERROR,
 					"TOPIC(%s) ERROR: failed to put msg(%s) to channel(%s) - %s",
 					t.name, msg.ID, channel.name, err)
+				verif.Ev("CopyFail", "c", vc(channel), "id", vid(msg.ID))
 			}
 		}
+		verif.Ev("TCopied", "t", vt(t), "id", vid(msg.ID))
 	}
 
 exit:
@@ -357,6 +377,8 @@ func (t *Topic) exit(deleted bool) error {
 	if !atomic.CompareAndSwapInt32(&t.exitFlag, 0, 1) {
 		return errors.New("exiting")
 	}
+	verif.Ev("TExit", "t", vt(t), "deleted", deleted)
+	verif.Yield("topic.exit.flag", vt(t))
 
 	if deleted {
 		t.nsqd.logf(LOG_INFO, "TOPIC(%s): deleting", t.name)
@@ -372,6 +394,8 @@ func (t *Topic) exit(deleted bool) error {
 
 	// synchronize the close of messagePump()
 	t.waitGroup.Wait()
+	verif.Ev("TPumpStopped", "t", vt(t))
+	verif.Yield("topic.exit.pumpStopped", vt(t))
 
 	if deleted {
 		t.Lock()
@@ -383,6 +407,7 @@ func (t *Topic) exit(deleted bool) error {
 
 		// empty the queue (deletes the backend files, too)
 		t.Empty()
+		verif.Ev("TDeleted", "t", vt(t))
 		return t.backend.Delete()
 	}
 
@@ -399,6 +424,7 @@ func (t *Topic) exit(deleted bool) error {
 
 	// write anything leftover to disk
 	t.flush()
+	verif.Ev("TClosed", "t", vt(t))
 	return t.backend.Close()
 }
 
@@ -426,6 +452,7 @@ func (t *Topic) flush() error {
 		select {
 		case msg := <-t.memoryMsgChan:
 			err := writeMessageToBackend(msg, t.backend)
+			verif.Ev("TFlush", "t", vt(t), "id", vid(msg.ID), "ok", err == nil)
 			if err != nil {
 				t.nsqd.logf(LOG_ERROR,
 					"ERROR: failed to write message to backend - %s", err)
@@ -470,6 +497,7 @@ func (t *Topic) UnPause() error {
 }
 
 func (t *Topic) doPause(pause bool) error {
+	verif.Ev("TPauseBegin", "t", vt(t), "p", pause)
 	if pause {
 		atomic.StoreInt32(&t.paused, 1)
 	} else {
@@ -480,6 +508,7 @@ func (t *Topic) doPause(pause bool) error {
 	case t.pauseChan <- 1:
 	case <-t.exitChan:
 	}
+	verif.Ev("TPauseEnd", "t", vt(t), "p", pause)
 
 	return nil
 }
